@@ -667,6 +667,9 @@ func AllCells() []Cell {
 	cs = append(cs, fileCells()...)
 	cs = append(cs, MultiLineCells()...)
 	cs = append(cs, EscapeCells()...)
+	cs = append(cs, LineCommentCells()...)
+	cs = append(cs, CRCells()...)
+	cs = append(cs, CRLFCells()...)
 	return cs
 }
 
